@@ -205,6 +205,34 @@ theorem result_is_meaning {P : List Act → Prop} (hC : Closed P) {h0 : Heap} {d
     obtain ⟨m, r, h1, h2⟩ := he st' rfl
     exact ⟨m, r, h1, h2.abs⟩
 
+/-- the meaning does not depend on the fuel -/
+theorem meaning_unique {d : List (Str × Val)} {m m' : Nat} {q : List Act} {r r' : RState}
+    (h : refChain d m q = some r) (h' : refChain d m' q = some r') : r = r' := by
+  have h1 := refChain_mono h (Nat.le_max_left m m')
+  have h2 := refChain_mono h' (Nat.le_max_right m m')
+  rw [h1] at h2
+  exact Option.some.inj h2
+
+/-- one evaluation can never observe what another evaluation or the caller did: two histories from the same configuration —
+however different — that end with an evaluation of the same chain return states with the same data, variables, volatility
+and caching -/
+theorem result_independent_of_history {P : List Act → Prop} (hC : Closed P) {h0 : Heap} {dd : List (Str × HV)}
+    (b b' : Bool) (wf : h0.WF) (hd : ∀ a ∈ cellsVars dd, a < h0.next) (hkeys : (dd.map Prod.fst).Nodup)
+    (hK : KeyOK (absVars h0 dd) P) (hS : Safe (absVars h0 dd) P) (ops ops' : List Op) (q : List Act)
+    (hP : ∀ q', Op.eval q' ∈ ops ++ [.eval q] → P q') (hP' : ∀ q', Op.eval q' ∈ ops' ++ [.eval q] → P q')
+    (st st' : HState)
+    (hst : (run { w := { heap := h0, defaults := dd, cacheOn := b } } (ops ++ [.eval q])).returned.getLast? = some (some st))
+    (hst' : (run { w := { heap := h0, defaults := dd, cacheOn := b' } } (ops' ++ [.eval q])).returned.getLast? =
+      some (some st')) :
+    let H := (run { w := { heap := h0, defaults := dd, cacheOn := b } } (ops ++ [.eval q])).w.heap
+    let H' := (run { w := { heap := h0, defaults := dd, cacheOn := b' } } (ops' ++ [.eval q])).w.heap
+    (absState H st).data = (absState H' st').data ∧ (absState H st).vars = (absState H' st').vars ∧
+      (absState H st).volatile = (absState H' st').volatile ∧ (absState H st).caching = (absState H' st').caching := by
+  obtain ⟨m, r, h1, h2, h3, h4, h5⟩ := result_is_meaning hC b wf hd hkeys hK hS ops q hP st hst
+  obtain ⟨m', r', h1', h2', h3', h4', h5'⟩ := result_is_meaning hC b' wf hd hkeys hK hS ops' q hP' st' hst'
+  obtain rfl := meaning_unique h1 h1'
+  exact ⟨h2.trans h2'.symm, h3.trans h3'.symm, h4.trans h4'.symm, h5.trans h5'.symm⟩
+
 /-! ### 5. variable scope on the value-level meaning -/
 
 /-- a `let-k-v` step makes `getvar-k` to its right return `v` -/
@@ -287,4 +315,4 @@ end example_history
 
 end Liquer.C10
 
--- OBLIGATIONS: Liquer.C10.eval_frame Liquer.C10.args_frame Liquer.C10.sep_init Liquer.C10.sep_step Liquer.C10.sep_run Liquer.C10.caller_isolation Liquer.C10.eval_isolation Liquer.C10.defaults_never_change Liquer.C10.returned_never_changes Liquer.C10.safe_of_no_vol_before_getvar Liquer.C10.keyOK_of_injective_keys Liquer.C10.eval_is_meaning Liquer.C10.history_sound Liquer.C10.cache_entry_is_meaning Liquer.C10.result_is_meaning Liquer.C10.let_visible_to_the_right Liquer.C10.chain_starts_from_defaults Liquer.C10.link_argument_from_defaults Liquer.C10.unassigned_variable_is_default
+-- OBLIGATIONS: Liquer.C10.eval_frame Liquer.C10.args_frame Liquer.C10.sep_init Liquer.C10.sep_step Liquer.C10.sep_run Liquer.C10.caller_isolation Liquer.C10.eval_isolation Liquer.C10.defaults_never_change Liquer.C10.returned_never_changes Liquer.C10.safe_of_no_vol_before_getvar Liquer.C10.keyOK_of_injective_keys Liquer.C10.eval_is_meaning Liquer.C10.history_sound Liquer.C10.cache_entry_is_meaning Liquer.C10.result_is_meaning Liquer.C10.meaning_unique Liquer.C10.result_independent_of_history Liquer.C10.let_visible_to_the_right Liquer.C10.chain_starts_from_defaults Liquer.C10.link_argument_from_defaults Liquer.C10.unassigned_variable_is_default
